@@ -12,12 +12,12 @@ func reflectTypeOf(x any) reflect.Type { return reflect.TypeOf(x) }
 
 // ghostState holds the models of sync primitives and the monitors' bookkeeping.
 type ghostState struct {
-	pools       map[*Value]*poolState
-	poolFork    bool // Get may return any pooled object or a fresh one (forked)
-	poolSeq     int
-	mutexes     map[*Value]*mutexState
-	onces       map[*Value]bool
-	crcNative   bool
+	pools     map[*Value]*poolState
+	poolFork  bool // Get may return any pooled object or a fresh one (forked)
+	poolSeq   int
+	mutexes   map[*Value]*mutexState
+	onces     map[*Value]bool
+	crcNative bool
 
 	// ownership monitor
 	ownMon   bool
